@@ -12,6 +12,7 @@ import (
 	"fmt"
 	"io"
 	"os"
+	"os/exec"
 	"path/filepath"
 	"regexp"
 	"runtime"
@@ -699,6 +700,10 @@ func runC20(r *Run) {
 	r.Rule = "generated projects of 1-8 workflows whose run: steps get their shell from the step, the job default, the workflow default or the runner (windows => pwsh); each script carries a unique id, placeholders at start/middle/end/adjacent/multi-line/unclosed positions and a behaviour marker for the fake tool (ok, k issues, exit!=0 without output, killed, garbage, slow). Fault enumeration: every assignment of the 6 behaviours to k<=4 tool invocations (1554 patterns; all in thorough, a seeded sample in quick). Oracles: tool log (exact stdin per eligible script, exactly once), diagnostics/fatal error vs. the planned behaviour, hook trace (semaphore and live-process bounds, nothing after return, every run has ended), also under -race and with NumCPU=2 (taskset). Non-trivial = distinct case with >= 1 tool invocation whose outcome (issues / fatal / ok) matched the model."
 	r.Assume("the fake tool's log undercounts process lifetimes (start logged after exec, end before exit), so the concurrency bound cannot false-alarm")
 	r.Assume("pyflakes output that contains no '<stdin>:' line is ignored by design; only shellcheck must fail on garbage")
+	if r.ReplayOf != nil && r.ReplayOf.Family == "strace-cli" {
+		r.RunFamilies([]*Family{{Name: "strace-cli", N: r.ReplayOf.Index + 1, Do: c20StraceCase}})
+		return
+	}
 	if r.ReplayOf != nil {
 		t := wkTask{Family: r.ReplayOf.Family, From: r.ReplayOf.Index, To: r.ReplayOf.Index + 1, Race: strings.HasSuffix(r.ReplayOf.Family, "-race")}
 		if strings.HasSuffix(t.Family, "-cpu2") {
@@ -731,6 +736,7 @@ func runC20(r *Run) {
 	}
 	runWorkerPool(r, "c20-worker", tasks, 6, nil)
 	r.Count("race_reports", 0)
+	r.RunFamilies([]*Family{{Name: "strace-cli", N: r.Q(9, 150), Par: 3, Do: c20StraceCase}})
 	if r.SetLen("fatal_classes") < 4 {
 		r.Inconclusive("too few distinct tool failure classes led to a fatal error")
 	}
@@ -738,3 +744,146 @@ func runC20(r *Run) {
 		r.Inconclusive("the semaphore bound was never reached under NumCPU=2")
 	}
 }
+
+// ---------------------------------------------------------------------------
+// (3) kernel-level observation of the real CLI with strace
+
+var (
+	c20StPid    = regexp.MustCompile(`^(\d+)\s+(.*)$`)
+	c20StSiPid  = regexp.MustCompile(`si_pid=(\d+)`)
+	c20StExited = regexp.MustCompile(`^\+\+\+ (exited with|killed by)`)
+)
+
+// c20StraceCase runs the CLI under strace -f with NumCPU restricted by taskset and checks: never
+// more live tool processes than CPUs, every tool process has exited and has been reaped before the
+// CLI exits.
+func c20StraceCase(c *Case) {
+	ncpu := []int{2, 4, 16}[c.Idx%3]
+	if ncpu > runtime.NumCPU() {
+		ncpu = runtime.NumCPU()
+	}
+	cs := c20Gen(c.R, nil, c.R.Range(1, 6), 8, 20)
+	root := mkScratch("c20st")
+	defer os.RemoveAll(root)
+	writeFiles(root, cs.Files)
+	tool := filepath.Join(binDir(), "faketool")
+	tracePath := filepath.Join(root, "strace.txt")
+	cpus := fmt.Sprintf("0-%d", ncpu-1)
+	args := []string{"-f", "-q", "-e", "trace=process", "-o", tracePath, "taskset", "-c", cpus, filepath.Join(binDir(), "actionlint"), "-no-color", "-shellcheck=" + tool, "-pyflakes=" + tool}
+	args = append(args, cs.Lint...)
+	cmd := execCommand("strace", args...)
+	cmd.Dir = root
+	cmd.Env = append(os.Environ(), "FAKETOOL_LOG=", "FAKETOOL_DIR=")
+	outb, _ := cmd.CombinedOutput()
+	c.Eval(1)
+	b, err := os.ReadFile(tracePath)
+	if err != nil {
+		c.Count("strace_unavailable", 1)
+		return
+	}
+	lines := strings.Split(string(b), "\n")
+	toolPids := map[string]bool{}
+	toolFamily := map[string]bool{} // tool processes and their threads
+	cloneRes := regexp.MustCompile(`\) = (\d+)$`)
+	// pass 1: tool processes, their threads, and the CLI's own exit_group (the last exit_group by a
+	// process that is not a tool; helper children of os/exec exit early)
+	mainExitLine := -1
+	for i, l := range lines {
+		m := c20StPid.FindStringSubmatch(l)
+		if m == nil {
+			continue
+		}
+		pid, rest := m[1], m[2]
+		if strings.HasPrefix(rest, "execve(\""+tool+"\"") {
+			toolPids[pid] = true
+			toolFamily[pid] = true
+		}
+		if toolFamily[pid] && (strings.HasPrefix(rest, "clone") || strings.HasPrefix(rest, "<... clone")) {
+			if cm := cloneRes.FindStringSubmatch(rest); cm != nil {
+				toolFamily[cm[1]] = true
+			}
+		}
+		if strings.HasPrefix(rest, "exit_group(") && !toolFamily[pid] {
+			mainExitLine = i
+		}
+	}
+	alive := map[string]bool{}
+	started := map[string]bool{}
+	exited := map[string]bool{}
+	reaped := map[string]bool{}
+	live, maxLive := 0, 0
+	var bad []string
+	for i, l := range lines {
+		m := c20StPid.FindStringSubmatch(l)
+		if m == nil {
+			continue
+		}
+		pid, rest := m[1], m[2]
+		switch {
+		case strings.HasPrefix(rest, "execve(\""+tool+"\""):
+			if !started[pid] {
+				started[pid] = true
+				alive[pid] = true
+				live++
+				if live > maxLive {
+					maxLive = live
+				}
+			}
+		case c20StExited.MatchString(rest):
+			if alive[pid] {
+				alive[pid] = false
+				live--
+			}
+			if toolPids[pid] {
+				exited[pid] = true
+				if mainExitLine >= 0 && i > mainExitLine {
+					bad = append(bad, fmt.Sprintf("tool process %s ended (line %d) after the CLI had called exit_group (line %d)", pid, i+1, mainExitLine+1))
+				}
+			}
+		}
+		if strings.Contains(rest, "CLD_EXITED") || strings.Contains(rest, "CLD_KILLED") || strings.Contains(rest, "CLD_DUMPED") {
+			if strings.HasPrefix(rest, "waitid(") || strings.HasPrefix(rest, "<... waitid resumed>") || strings.HasPrefix(rest, "wait4(") || strings.HasPrefix(rest, "<... wait4 resumed>") {
+				if sm := c20StSiPid.FindStringSubmatch(rest); sm != nil && (mainExitLine < 0 || i < mainExitLine) {
+					reaped[sm[1]] = true
+				}
+			}
+		}
+	}
+	// recompute: exit_group lines of helper children come before; take the last non-tool exit_group
+	c.SetAdd("strace_max_live_tool_processes", fmt.Sprintf("cpus=%d:max=%d", ncpu, maxLive))
+	c.Count("strace_tool_processes", len(toolPids))
+	detail := map[string]interface{}{"files": cs.Files, "cpus": ncpu, "cli_output": truncate(string(outb), 2000), "strace_tail": truncate(strings.Join(lines[max(0, len(lines)-60):], "\n"), 6000)}
+	if maxLive > ncpu {
+		c.Violation("C20:more-processes-than-cpus", fmt.Sprintf("strace: %d tool processes alive at once with %d CPUs", maxLive, ncpu), detail)
+	}
+	for pid := range toolPids {
+		if !exited[pid] {
+			bad = append(bad, "tool process "+pid+" has no exit record")
+		}
+	}
+	if len(bad) > 0 {
+		c.Violation("C20:tool-outlives-cli", strings.Join(bad, "; "), detail)
+	}
+	// wait4/waitid with pidfd does not name the pid in all kernels: only judge when results carry si_pid
+	nreap := 0
+	for pid := range toolPids {
+		if reaped[pid] {
+			nreap++
+		}
+	}
+	if len(reaped) > 0 && nreap < len(toolPids) {
+		var miss []string
+		for pid := range toolPids {
+			if !reaped[pid] {
+				miss = append(miss, pid)
+			}
+		}
+		sort.Strings(miss)
+		c.Violation("C20:tool-not-collected", "tool processes not reaped (no wait result naming them) before the CLI exited: "+strings.Join(miss, ","), detail)
+	}
+	if len(toolPids) > 0 {
+		c.Nontrivial(fmt.Sprintf("strace|%d|%d", c.Idx, len(toolPids)))
+	}
+}
+
+func execCommand(name string, args ...string) *exec.Cmd { return exec.Command(name, args...) }
